@@ -330,6 +330,16 @@ fn check_pair(a: &Spec, b: &Spec) -> Result<(), String> {
 }
 
 pub fn replay(case: &serde_json::Value) -> Option<Violation> {
+    if let Some(v) = case.get("checked_int").and_then(|x| x.as_i64()) {
+        let in_range = v >= lattice::MIN_INT && v <= lattice::MAX_INT;
+        let got = catch_unwind(AssertUnwindSafe(|| Object::checked_int(v as isize).map(|o| (o.tag() == Type::Int, o.as_int() as i64))));
+        let ok = match &got {
+            Ok(Some((is_int, back))) => in_range && *is_int && *back == v,
+            Ok(None) => !in_range,
+            Err(_) => false,
+        };
+        return if ok { None } else { Some(viol("checked_int", "checked-int", case.clone(), "exactly the 61-bit range is accepted", format!("{:?}", got.map_err(|_| "panic")))) };
+    }
     if let Some(a) = case.get("a") {
         let a = spec_from_json(a)?;
         let b = spec_from_json(case.get("b")?)?;
@@ -375,6 +385,43 @@ pub fn run(ctx: &Ctx) -> Report {
         }
     }
     rep.sample(json!({"fixed_grid": {"ints": lat.len(), "descriptors": OFFSETS.len() * COUNTS.len()}}));
+
+    // (2b) the checked integer constructor: exactly the 61-bit range is accepted, and accepted values read back as written
+    let mut candidates: Vec<i64> = lat.clone();
+    for k in 59..=63u32 {
+        for d in [-2i128, -1, 0, 1, 2] {
+            for sign in [1i128, -1] {
+                let v = sign * ((1i128 << k) + d);
+                if v >= i64::MIN as i128 && v <= i64::MAX as i128 {
+                    candidates.push(v as i64);
+                }
+            }
+        }
+    }
+    candidates.extend([i64::MAX, i64::MIN, i64::MAX - 1, i64::MIN + 1]);
+    for v in candidates {
+        rep.eval();
+        rep.count("checked_int");
+        let in_range = v >= lattice::MIN_INT && v <= lattice::MAX_INT;
+        let got = catch_unwind(AssertUnwindSafe(|| Object::checked_int(v as isize).map(|o| (o.tag() == Type::Int, o.as_int() as i64))));
+        let ok = match &got {
+            Ok(Some((is_int, back))) => in_range && *is_int && *back == v,
+            Ok(None) => !in_range,
+            Err(_) => false,
+        };
+        if !in_range {
+            rep.nontrivial(&format!("checked_int({v})"));
+        }
+        if !ok {
+            rep.violation(viol(
+                "checked_int",
+                "checked-int",
+                json!({"checked_int": v}),
+                if in_range { "Some(the same integer)" } else { "None: the value does not fit in 61 bits" },
+                format!("{:?}", got.map_err(|_| "panic")),
+            ));
+        }
+    }
 
     // (3) tape-generated values
     let cases = ctx.pick(400_000u32, 8_000_000u32) / ctx.shards as u32;
